@@ -128,6 +128,48 @@ func checkCloneCompleteness(c *Ctx, rule string) {
 		}
 	}
 	c.Check(okM && okU && okR, rule, "clone:definition", p.Pos(clone.Pos()), "Marshal(receiver) → Unmarshal into a fresh (zero) Table → that Table", fmt.Sprintf("Table.Clone is not a JSON round trip of its receiver into a fresh, zero table (marshal receiver=%v, unmarshal those bytes into a zero value=%v, return that table=%v)", okM, okU, okR))
+	// the text encoders the copies are made from (the adapter decodes GetJSON of the incoming table): what a table
+	// encodes to depends on that table only — every successful return is string(json.Marshal(receiver …)) of this very
+	// call. An encoding remembered under the table's id / serial is handed out for a different object with the same
+	// id and serial (the observer's filtered copy gets the unfiltered text; an actor gets a stale table).
+	nEnc := 0
+	for _, f := range p.Funcs {
+		if f.Parent() != nil || f.Signature.Recv() == nil || namedOf(f.Signature.Recv().Type()) == nil || namedOf(f.Signature.Recv().Type()).Obj().Name() != "Table" || !inPkg(p, f, "") {
+			continue
+		}
+		res := f.Signature.Results()
+		if res.Len() != 2 || typeShort(res.At(0).Type()) != "string" || !isErrorType(res.At(1).Type()) {
+			continue
+		}
+		nEnc++
+		okEnc, where := true, p.Pos(f.Pos())
+		nOK := 0
+		for _, b := range f.Blocks {
+			r, isR := b.Instrs[len(b.Instrs)-1].(*ssa.Return)
+			if !isR || len(r.Results) != 2 {
+				continue
+			}
+			if k, isK := r.Results[1].(*ssa.Const); !isK || !k.IsNil() {
+				continue // error exit
+			}
+			good := false
+			if cv, isCv := r.Results[0].(*ssa.Convert); isCv {
+				if ex, isEx := cv.X.(*ssa.Extract); isEx && ex.Index == 0 {
+					if call, isCall := ex.Tuple.(*ssa.Call); isCall && calleeName(call.Common()) == "json.Marshal" {
+						a := p.Sym(call.Common().Args[0]).Strip()
+						good = a.Kind == "param" || a.Root().Kind == "param"
+					}
+				}
+			}
+			if good {
+				nOK++
+			} else {
+				okEnc, where = false, p.InstrPos(r)
+			}
+		}
+		c.Check(okEnc && nOK >= 1, rule, "encoder:definition:"+fnName(f), where, "every successful return is string(json.Marshal(receiver …)) computed in this call", "Table."+fnName(f)+" can answer with a text that is not the encoding of its own receiver made in this call (a remembered encoding is handed out for another object with the same key)")
+	}
+	c.Min(rule, "text encoders of Table", nEnc, 2)
 }
 
 func hasViolation(c *Ctx, rule, prefix string) bool {
